@@ -209,6 +209,8 @@ def judge(tool, args, r, what, pre=None):
 # ---------------------------------------------------------------------------
 # hostile command lines
 
+DIMACS_TEXTS = ['p cnf 2 2\n1 -2 0\n2 0\n', 'p cnf 1 1\n3 0\n', '', 'garbage\n', 'p cnf 2 1\n1 2\n', 'c only comment\n',
+                'p cnf 0 0\n', 'p cnf 2 2\n1 0\n', 'p cnf x y\n', 'p cnf 3 1\n1 2 3 0\n', 'c hi\np cnf 3 2\n1 -3 0\n\n2 0\n']
 NUM_POOL = ['-1', '0', '1', '2', '3', '5', '6', 'x', '1.5', '', '-', '007']
 T_NUM_POOL = ['-1', '0', '1', '2', '3', 'x']
 FILE_KINDS = ['missing', 'dir', 'empty', 'garbage', 'wrongformat', 'binary', 'unreadable']
@@ -227,6 +229,15 @@ def strat_case(draw):
     tool = draw(st.sampled_from(['cnfgen', 'cnfgen', 'cnfgen', 'pbgen', 'cnfshuffle', 'kthlist2pebbling']))
     muts = []
     stdin = None
+    if tool in ('cnfgen', 'pbgen') and draw(st.integers(0, 9)) == 0:
+        # the 'dimacs' sub-command: formula from a file or from the standard input
+        stdin = draw(st.sampled_from(DIMACS_TEXTS))
+        src = draw(st.sampled_from([[], ['-'], ['@FILE:garbage'], ['@FILE:missing'], ['@FILE:dir'], ['@FILE:cnf']]))
+        out = draw(st.sampled_from(argv_gen.OUTPUT_OPTS + [['-o', '@OUT']]))
+        if tool == 'pbgen':
+            out = [] if 'dimacs' in out else out
+        chain = draw(argv_gen.tchain(max_len=2)) if tool == 'cnfgen' else []
+        return {'tool': tool, 'args': out + ['dimacs'] + src + chain, 'stdin': stdin, 'rseed': draw(st.integers(0, 5))}
     if tool in ('cnfgen', 'pbgen'):
         kind = draw(st.sampled_from(['graph', 'graph', 'numeric-random', 'numeric']))
         if kind == 'graph':
@@ -322,6 +333,9 @@ def materialize(args, d):
             elif k == 'garbage':
                 with open(p, 'w') as f:
                     f.write("this is not a graph\n1 2 3\n%%\n")
+            elif k == 'cnf':
+                with open(p, 'w') as f:
+                    f.write("c a file\np cnf 3 2\n1 -2 0\n2 3 0\n")
             elif k == 'wrongformat':
                 with open(p, 'w') as f:
                     f.write("p cnf 2 1\n1 2 0\n")
@@ -355,11 +369,43 @@ def size_guard(tool, args):
     return True
 
 
+EXPANDING = {'xor': 2, 'or': 2, 'maj': 3, 'eq': 2, 'neq': 2, 'one': 3, 'atleast': 3, 'atmost': 3, 'exact': 3, 'anybut': 3,
+             'ite': 2, 'lift': 2, 'xorcomp': 4, 'majcomp': 4}
+
+
+def bounded(tool, args, stdin):
+    """Drops the -T chain when the base formula is too wide for a clause-expanding step: the base formula
+    (numbers <= 6, so it is cheap) is built first and measured; nothing depends on a timeout."""
+    if tool != 'cnfgen' or '-T' not in args:
+        return args
+    i = args.index('-T')
+    chain = args[i:]
+    if not any(t in EXPANDING for t in chain):
+        return args
+    try:
+        random.seed(0)
+        F = cli.build(tool, args[:i], stdin)
+    except BaseException:      # noqa  (whatever goes wrong is judged on the full command line)
+        return args
+    width = max([len(c) for c in F] + [0])
+    per = max(EXPANDING.get(t, 1) for t in chain)
+    nexp = sum(1 for t in chain if t in EXPANDING)
+    if len(F) * (per ** width) ** nexp > 200000 or width * 3 > 60:
+        return args[:i]
+    return args
+
+
 def run_case(case):
     tool, stdin = case['tool'], case['stdin']
     d = tempfile.mkdtemp(prefix="c18_")
     try:
         args = materialize(case['args'], d)
+        cwd0 = os.getcwd()
+        os.chdir(d)
+        try:
+            args = bounded(tool, args, stdin)
+        finally:
+            os.chdir(cwd0)
         seedpos = [i for i, a in enumerate(args) if a == '--seed']
         guarded = [a for i, a in enumerate(args) if not (i > 0 and args[i - 1] == '--seed')]
         if not size_guard(tool, guarded):
@@ -403,6 +449,18 @@ def run_subprocess_case(case):
             return Outcome(nontrivial=False, labels=['size-guard'])
         if '--seed' not in args and tool in ('cnfgen', 'pbgen'):
             args = ['--seed', '1'] + args
+        cwd0 = os.getcwd()
+        os.chdir(d)
+        try:
+            args = bounded(tool, args, stdin)
+        finally:
+            os.chdir(cwd0)
+        for fn in os.listdir(d):
+            if fn.startswith('out') or fn.startswith('saved'):
+                try:
+                    os.remove(os.path.join(d, fn))
+                except OSError:
+                    pass
         pre = _pre(tool, args)
         r = cli.run_subprocess(tool, args, stdin, cwd=d)
         what = "(process) {} {}".format(tool, ' '.join(case['args']))
@@ -439,13 +497,33 @@ def run_subprocess_case(case):
     return Outcome(labels=[tool, verdict, 'subprocess'], nontrivial=True)
 
 
+def enum_subprocess(tier):
+    """commands that read the standard input: in a real process stdin is a pipe (not seekable)"""
+    good = 'c hi\np cnf 3 2\n1 -3 0\n2 0\n'
+    kth = '3\n1 : 0\n2 : 0\n3 : 1 2 0\n'
+    for text in (good, 'garbage\n', ''):
+        for opts in ([], ['-q'], ['-of', 'latex'], ['-of', 'opb'], ['--varnames']):
+            yield {'tool': 'cnfgen', 'args': opts + ['dimacs'], 'stdin': text, 'rseed': 0}
+            yield {'tool': 'cnfgen', 'args': opts + ['dimacs', '-'], 'stdin': text, 'rseed': 0}
+            yield {'tool': 'cnfgen', 'args': opts + ['dimacs', '-T', 'xor', '2'], 'stdin': text, 'rseed': 0}
+        yield {'tool': 'pbgen', 'args': ['dimacs'], 'stdin': text, 'rseed': 0}
+        yield {'tool': 'pbgen', 'args': ['-of', 'latex', 'dimacs'], 'stdin': text, 'rseed': 0}
+        for flags in ([], ['-q'], ['-p', '-v', '-c'], ['-i', '-']):
+            yield {'tool': 'cnfshuffle', 'args': ['--seed', '3'] + flags, 'stdin': text, 'rseed': 0}
+    for text in (kth, 'garbage\n', ''):
+        for a in ([], ['-q'], ['xor', '2'], ['-i', '-']):
+            yield {'tool': 'kthlist2pebbling', 'args': a, 'stdin': text, 'rseed': 0}
+    for a in (['peb', 'kthlist', '-'], ['kcolor', '2', 'kthlist', '-'], ['php', 'matrix', '-']):
+        yield {'tool': 'cnfgen', 'args': a, 'stdin': '2 2\n1 0\n1 1\n' if 'matrix' in a else kth, 'rseed': 0}
+
+
 TOOLS = ['cnfgen', 'pbgen', 'cnfshuffle', 'kthlist2pebbling']
 
 SUBCHECKS = [
     SubCheck('hostile', run_case, strategy=strat_case, quick=3000, thorough=150000,
              rule="valid command lines of every sub-command (graph constructions, numeric forms, -T chains, every output option, -o into files and directories) with 0..3 mutations: numbers replaced by -1/0/1/2/3/5/6/x/1.5/empty, tokens deleted/duplicated, unknown options, graph constructions replaced by missing/directory/empty/garbage/wrong-format/binary/unreadable files with every format keyword, 'save' into bad places, constructions of the wrong graph type, extra tokens, -h anywhere; cnfshuffle and kthlist2pebbling with option soups and good/garbage stdin; oracle: exactly one of {exit 0 + complete document accepted by the strict reader of the format, help + exit 0, non-zero exit + empty stdout + non-empty stderr with every line starting with the comment marker}; never an escaping exception or traceback; non-trivial: the argv names a sub-command",
              required_labels=TOOLS + ['success', 'clean-error', 'help', 'bad-file', 'directory-argument']),
-    SubCheck('subprocess', run_subprocess_case, strategy=strat_case, quick=40, thorough=2500,
+    SubCheck('subprocess', run_subprocess_case, strategy=strat_case, enumerate_cases=enum_subprocess, quick=32, thorough=2500,
              rule="the same generator, each command line run as a real process (python -c 'from <tool module> import main; main()') and compared with the in-process verdict",
              required_labels=['subprocess']),
 ]
